@@ -45,6 +45,12 @@ def task_tree_lemmas():
                             "(lemmas/SubTree.lean) from the inductive definition over an abstract child relation; that the heap's child lists are that relation is by inspection")
 
 
+def task_fold_lemmas():
+    return common.lean_task("C09/lemma:generations[Lean]", "C09/lemma:generations/lean-proof", "Folds.lean",
+                            "L-empty-generation and the counting half of L-enum are also proved in Lean 4 (lemmas/Folds.lean: empty_generation, count_inverse) by induction over "
+                            "abstract functions that satisfy the ghosts' one-level unfoldings; the z3 obligations tie base and steps to the actual ghost symbols")
+
+
 QUERIES = ["find_all_children", "get_ancestry", "find_child[as a function]", "find_single_node_by_path", "find_all_descendants", "find_all_nodes_by_path"]
 
 
@@ -321,7 +327,7 @@ def main(tier, seed):
     t0 = time.time()
     specs = [("props.C09", "task", {"which": f}) for f in FUNCS]
     specs += [("props.C09", "task", {"which": "shift", "direction": d}) for d in ("RIGHT", "LEFT", "other")]
-    specs += [("props.C09", "task_query", {"which": q}) for q in QUERIES] + [("props.C09", "task_lemma", {}), ("props.C09", "task_tree_lemmas", {})]
+    specs += [("props.C09", "task_query", {"which": q}) for q in QUERIES] + [("props.C09", "task_lemma", {}), ("props.C09", "task_tree_lemmas", {}), ("props.C09", "task_fold_lemmas", {})]
     results = common.run_tasks(specs)
     b = bounded(tier, seed)
     return common.decide(PID, tier, seed, results, b, t0, "DESIGN.md §4 C09", extra_assumptions=[
